@@ -51,6 +51,7 @@ def plan(tier, seed):
         jobs.append({'fn': 'dtcwt_grad', 'cfg': {'which': 'inverse', 'o_dim': o, 'ri_dim': r}, 'grid': {'J': [2], 'H': [6], 'W': [8]}})
     return {
         'groups': gs,
+        'lean_lemmas': ['adjoint_of_comp', 'adjoint_of_add'],
         'native': [('bounded.py', [write_jobs('C06', jobs), seed], 'bounded: autograd through the real DTCWTForward/DTCWTInverse vs J^T g (small images incl. images smaller than the filters)')],
         'level': 'proof', 'trusted_base': TRUSTED,
         'assumptions': ASSUMPTIONS + [
